@@ -16,8 +16,8 @@ from common import coq_list, coq_N
 
 IMPORTS = 'From XV Require Import Base Tree SchemaPath.'
 NS = 'urn:p'
-NAMES = {'root': 1, 'a': 2, 'b': 3, 'c': 4, 'item': 5, 'g': 6, 'h': 7, 'm': 8, 'leaf': 9, 'deep': 10}
-TYPES = {'xs:int': 11, 'xs:date': 12, 'xs:string': 13, 'xs:boolean': 14, 'complex': 20}
+NAMES = {'root': 1, 'a': 2, 'b': 3, 'c': 4, 'item': 5, 'g': 6, 'h': 7, 'm': 8, 'leaf': 9, 'deep': 10, 'qn': 11}
+TYPES = {'xs:int': 11, 'xs:date': 12, 'xs:string': 13, 'xs:boolean': 14, 'xs:QName': 15, 'complex': 20}
 
 
 XSDNS_SCHEMA = ('<schema xmlns="http://www.w3.org/2001/XMLSchema">'       # no target namespace, XSD as default namespace
@@ -48,6 +48,7 @@ def schema_xsd(ns, uri=NS, xsd_default=False):
             '<xs:unique name="UA"><xs:selector xpath="%sitem"/><xs:field xpath="."/></xs:unique></xs:element>'
             '<xs:element name="b" minOccurs="0" maxOccurs="unbounded"><xs:complexType><xs:sequence>'
             '<xs:element name="item" type="xs:date" maxOccurs="unbounded"/><xs:element ref="%sg" minOccurs="0"/>'
+            '<xs:element name="qn" type="xs:QName" minOccurs="0"/>'     # a QName whose prefix is declared on the parent element
             '</xs:sequence></xs:complexType></xs:element>'
             '<xs:element name="c" minOccurs="0" maxOccurs="unbounded"><xs:complexType><xs:sequence>'
             '<xs:element ref="%sh" maxOccurs="unbounded"/><xs:element name="deep" type="%sdeepType" minOccurs="0"/>'
@@ -66,7 +67,7 @@ def decl_tree():
         return kids
     return ('root', 'complex', [
         ('a', 'complex', [('item', 'xs:int', [])]),
-        ('b', 'complex', [('item', 'xs:date', []), ('g', 'xs:boolean', [])]),
+        ('b', 'complex', [('item', 'xs:date', []), ('g', 'xs:boolean', []), ('qn', 'xs:QName', [])]),
         ('c', 'complex', [('h', 'xs:string', []), ('m', 'xs:string', []), ('deep', 'complex', deep(4))]),
     ])
 
@@ -92,7 +93,11 @@ def gen_doc(rng, invalid=False, simple=False):
         ks = [el('item', '2020-0%d-1%d' % (rng.randint(1, 9), rng.randint(0, 9))) for _ in range(rng.randint(1, 2))]
         if rng.random() < 0.5 and not simple:
             ks.append(el('g', rng.choice(['true', 'false'])))
-        kids.append(el('b', kids=ks))
+        battrs = {}
+        if rng.random() < 0.5 and not simple:
+            ks.append(el('qn', 'z:v%d' % rng.randint(1, 3)))
+            battrs = {'xmlns:z': 'urn:zz'}
+        kids.append(el('b', kids=ks, attrs=battrs))
     for _ in range(rng.choice([0, 1, 1, 2, 3]) if not simple else 0):
         ks = [el(rng.choice(['h', 'm']), 's%d' % i) for i in range(rng.randint(1, 3))]
         if rng.random() < 0.7:
@@ -241,7 +246,7 @@ def subject(case):
                 r['part'] = [strip_root_xmlns(x) for x in part if not isinstance(x, Exception)]
                 r['part_errors'] = sorted(str(x.reason)[:60] for x in part if isinstance(x, Exception))
                 r['val_errors'] = sorted(str(e.reason)[:60] for e in s.iter_errors(res, path=p, namespaces=nsmap))
-                want = [jsonml_sub(full, b) for b in select_addrs(doc, a, positions)]
+                want = [strip_root_xmlns(jsonml_sub(full, b)) for b in select_addrs(doc, a, positions)]
                 r['want'] = want
                 sel = select_addrs(doc, a, positions)
                 r['want_errors'] = sorted(reason for pth, reason in full_errors
@@ -261,7 +266,7 @@ def subject(case):
                 r['part'] = [strip_root_xmlns(x) for x in part if not isinstance(x, Exception)]
                 r['part_errors'] = sorted(str(x.reason)[:60] for x in part if isinstance(x, Exception))
                 r['val_errors'] = sorted(str(e.reason)[:60] for e in s.iter_errors(res, path=p, namespaces=nsmap))
-                r['want'] = [jsonml_sub(full, b) for b in sibs]
+                r['want'] = [strip_root_xmlns(jsonml_sub(full, b)) for b in sibs]
                 r['want_errors'] = sorted(reason for pth, reason in full_errors
                                           if any(pth == path_of(doc, b, ns, True, case['default_ns']) or
                                                  pth.startswith(path_of(doc, b, ns, True, case['default_ns']) + '/') for b in sibs))
@@ -282,7 +287,7 @@ def subject(case):
                 r['part'] = [strip_root_xmlns(x) for x in part if not isinstance(x, Exception)]
                 r['part_errors'] = sorted(str(x.reason)[:60] for x in part if isinstance(x, Exception))
                 r['val_errors'] = sorted(str(e.reason)[:60] for e in s.iter_errors(res, path=p, namespaces=nsmap))
-                r['want'] = [jsonml_sub(full, b) for b in sel]
+                r['want'] = [strip_root_xmlns(jsonml_sub(full, b)) for b in sel]
                 r['want_errors'] = sorted(reason for pth, reason in full_errors
                                           if any(pth == path_of(doc, b, ns, True, case['default_ns']) or
                                                  pth.startswith(path_of(doc, b, ns, True, case['default_ns']) + '/') for b in sel))
